@@ -47,3 +47,17 @@ Theorem c05_unknown_neutral :
 Proof. exact C05.c05_unknown_neutral. Qed.
 Print Assumptions c05_unknown_neutral.
 
+
+(* ---- ties to the constant tables regenerated from the Go sources (tools/gotables -> GoTables.v) ---- *)
+From Coq Require Import List String ZArith NArith Bool. From Bexpr Require Import Base Strconv Ast Univ Eval Api Dump GoTables TableTie. Import ListNotations.
+
+Theorem not_present_table :
+  forall op : matchop, assoc (mop_go op) go_not_present = Some (bool_go (disposition op)).
+Proof. exact TableTie.not_present_table. Qed.
+Print Assumptions not_present_table.
+
+Theorem not_present_default :
+  assoc "default" go_not_present = Some "false".
+Proof. exact TableTie.not_present_default. Qed.
+Print Assumptions not_present_default.
+
